@@ -120,6 +120,7 @@ type RunResult struct {
 	Samples     []map[string]interface{} `json:"samples"`
 	AssumeFails map[string]int           `json:"assume_infeasible,omitempty"`
 	Error       string                   `json:"error,omitempty"`
+	sampleCex   []*CexFile
 }
 
 type FnCov struct {
@@ -185,6 +186,7 @@ func (e *Engine) runHarness(name string) *RunResult {
 	res.Functions = e.coverage()
 	res.ParamsUsed = e.paramsUsed
 	res.AssumeFails = e.assumeFailed
+	res.sampleCex = e.sampleCex
 	for _, sig := range e.violOrder {
 		res.Violations = append(res.Violations, e.violations[sig])
 	}
